@@ -251,6 +251,28 @@ def gen_entry_points(rng, tier):
         c = rand_cmd(rng, cc=rng.choice([0x10, 0x20, 0x30]) if v == 'b' else rng.choice(CCS), n=0)
         if c['cc'] & 1: c['port'] = rng.randrange(4)
         yield 'nullctor %s %s %d' % (v, cmd_s(c), rng.choice([0, 0, 1, 2, 12, 231, 232, 1000]))
+    # (i) RDMReply::operator== / RDMFrame::operator== on pairs of replies decoded from frames that are equal or
+    #     differ in one timing word, one data byte, the response type (ignored by the command equality) or length
+    for i in range(200 if quick else 4000):
+        rs = rand_cmd(rng, cc=rng.choice([0x11, 0x21, 0x31]), n=rng.choice([0, 1, 5]))
+        rs['port'] = rng.choice([0, 0, 1, 2, 3, 4])
+        f1 = [0xcc] + frame_of(rs, ckdelta=rng.choice([0, 0, 0, 1]))
+        t1 = [rng.choice([0, 1, 0xffffffff, rng.randrange(1 << 32)]) for _ in range(4)]
+        f2, t2 = list(f1), list(t1)
+        m = rng.choice(['same', 'same', 'timing', 'byte', 'rtype', 'len', 'startcode', 'other'])
+        if m == 'timing': t2[rng.randrange(4)] ^= rng.choice([1, 0x80000000])
+        elif m == 'byte': f2[rng.randrange(len(f2))] ^= rng.choice([1, 0x80])
+        elif m == 'rtype':
+            r2 = dict(rs); r2['port'] = (rs['port'] + 1) % 4; f2 = [0xcc] + frame_of(r2)
+        elif m == 'len': f2 = f2[:-1] if rng.random() < 0.5 else f2 + [0]
+        elif m == 'startcode': f2[0] = 0
+        elif m == 'other': f2 = [0xcc] + frame_of(rand_cmd(rng, cc=rs['cc'], n=1))
+        rqs = '-'
+        if rng.random() < 0.3:
+            rq = rand_cmd(rng, cc=rs['cc'] - 1)
+            rq['src'], rq['dst'], rq['tn'], rq['sub'] = rs['dst'], rs['src'], rs['tn'], rs['sub']
+            rqs = cmd_s(rq)
+        yield 'replyeq %s %s %s %s %s' % (rqs, ','.join(map(str, t1)), hx(f1), ','.join(map(str, t2)), hx(f2))
     # (e) RDMCommand::operator== on commands differing in at most one field
     for i in range(300 if quick else 5000):
         x = rand_cmd(rng, n=rng.choice([0, 1, 2, 3, 16, 231]))
